@@ -69,8 +69,8 @@ func main() {
 			fmt.Printf("VIOLATION property=%s replay=%s\n", pi.ID, replay)
 			_ = writeJSON(filepath.Join(*verif, "evidence", pi.ID+".json"), evidence{
 				PropertyID: pi.ID, Tier: *tier, Seed: seed, Level: pi.Level,
-				Coverage:   map[string]any{"explanation": "the repository could not be loaded/type-checked; nothing was decided: " + err.Error(), "obligations": 0, "discharged": 0, "checker_cmd": strings.Join(os.Args, " "), "trusted_base": []string{}},
-				WallS:      time.Since(startTime).Seconds(), Violations: 1, Assumptions: []string{},
+				Coverage: map[string]any{"explanation": "the repository could not be loaded/type-checked; nothing was decided: " + err.Error(), "obligations": 0, "discharged": 0, "checker_cmd": strings.Join(os.Args, " "), "trusted_base": []string{}},
+				WallS:    time.Since(startTime).Seconds(), Violations: 1, Assumptions: []string{},
 			})
 		}
 		os.Exit(1)
